@@ -36,19 +36,20 @@ type Engine struct {
 	tasks  []*Task
 	ntasks atomic.Int32
 
-	hist    *History
-	step    int
-	seq     int
-	start   time.Time
-	nextOp  int
-	opTask  []int // op index -> task id (or -1)
-	opDone  []bool
-	epoch   int
-	curCfg  int
-	mode    int32 // 0 normal, 1 teardown / crash reset (go statements dropped)
-	polHot  int
-	upCount map[string]int
-	stCount int
+	hist     *History
+	step     int
+	seq      int
+	start    time.Time
+	nextOp   int
+	opTask   []int // op index -> task id (or -1)
+	opDone   []bool
+	epoch    int
+	curCfg   int
+	mode     int32 // 0 normal, 1 teardown / crash reset (go statements dropped)
+	polHot   int
+	upCount  map[string]int
+	getCount map[string]int
+	stCount  int
 
 	disks      map[string]*Disk
 	stores     map[string]*simStore
@@ -166,6 +167,7 @@ func newEngine(plan *Plan, sched []string) *Engine {
 		listeners: map[string]http.Handler{},
 		netMode:   map[string]string{},
 		upCount:   map[string]int{},
+		getCount:  map[string]int{},
 		opTask:    make([]int, len(plan.Ops)),
 		opDone:    make([]bool, len(plan.Ops)),
 	}
